@@ -130,7 +130,12 @@ def main():
     if tier == "thorough":
         os.environ["PYVC_CVC5"] = "1"       # every unsat query is re-decided by cvc5 from its SMT-LIB export
     try:
-        units = [u for u in U.all_units() if relevant(prop, U.unit_props(u))]
+        # a unit belongs to the property if its contract says so or if one of the obligations it generates is tagged
+        # with it (cheap pass: symbolic execution only)
+        every = U.all_units()
+        with mp.Pool(args.jobs, maxtasksperchild=8) as pool:
+            dyn = dict(pool.map(U.list_tags, every, chunksize=4))
+        units = [u for u in every if relevant(prop, set(U.unit_props(u)) | set(dyn.get(u) or ()))]
         if args.only:
             units = [u for u in units if args.only in "%s:%s.%s" % u]
         if not units:
